@@ -82,7 +82,10 @@ def main(args):
     rc = canaries()
     if "--fast" not in args:
         rc = consistency() or rc
+    if "--harmless" in args:
+        p = subprocess.run([sys.executable, os.path.join(ROOT, "lib", "harmlesstest.py")])
+        rc = rc or p.returncode
     if "--seeds" in args:
-        p = subprocess.run([sys.executable, os.path.join(ROOT, "lib", "seedtest.py")] + [a for a in args if a != "--seeds"])
+        p = subprocess.run([sys.executable, os.path.join(ROOT, "lib", "seedtest.py")] + [a for a in args if a not in ("--seeds", "--harmless", "--fast")])
         rc = rc or p.returncode
     return rc
